@@ -180,7 +180,11 @@ impl DocumentBlock {
             DocumentBlock::OrderedList(list) => {
                 let item = list.items.last_mut().unwrap();
 
-                if item.is_empty() {
+                // loose text continues the paragraph it started; after any other block it starts a new one
+                if !matches!(
+                    item.last(),
+                    Some(DocumentBlock::Para(_)) | Some(DocumentBlock::Plain(_))
+                ) {
                     item.push(DocumentBlock::Para(Para {
                         line_range: line_range.clone(),
                         inlines: Vec::new(),
@@ -192,7 +196,11 @@ impl DocumentBlock {
             DocumentBlock::BulletList(list) => {
                 let item = list.items.last_mut().unwrap();
 
-                if item.is_empty() {
+                // loose text continues the paragraph it started; after any other block it starts a new one
+                if !matches!(
+                    item.last(),
+                    Some(DocumentBlock::Para(_)) | Some(DocumentBlock::Plain(_))
+                ) {
                     item.push(DocumentBlock::Para(Para {
                         line_range: line_range.clone(),
                         inlines: Vec::new(),
